@@ -399,3 +399,36 @@ Proof.
   destruct (gagg_run a rest (Some f) true) as [[o1 e1]|] eqn:G; [|congruence].
   inversion H; subst. exact (IH _ _ _ G).
 Qed.
+
+(* ---- collection.name = the map of the context's member access ----------------------------- *)
+Definition access_val (acc : access) (name : list Z) (x : val) : val :=
+  match access_elem acc name x with Ok v => v | _ => VNull end.
+
+(* every element accepts the access: the result is the map of the element access, whatever the context's `.` is *)
+Lemma access_all_map acc name : forall l, Forall (fun x => exists v, access_elem acc name x = Ok v) l ->
+  access_all acc name l = Some (map (access_val acc name) l, None).
+Proof.
+  induction l as [|x r IH]; intros F; [reflexivity|].
+  inversion F as [|? ? [v E] F']; subst. cbn [access_all map]. rewrite E, (IH F').
+  unfold access_val at 2. rewrite E. reflexivity.
+Qed.
+
+(* the first element that refuses it ends the sequence with ITS error, after the results of the earlier elements *)
+Lemma access_all_error acc name : forall l1 x r e, Forall (fun y => exists v, access_elem acc name y = Ok v) l1 ->
+  access_elem acc name x = Err e -> access_all acc name (l1 ++ x :: r) = Some (map (access_val acc name) l1, Some e).
+Proof.
+  induction l1 as [|y t IH]; intros x r e F E.
+  - cbn [app access_all map]. rewrite E. reflexivity.
+  - inversion F as [|? ? [v Ey] F']; subst. cbn [app access_all map]. rewrite Ey, (IH _ _ _ F' E).
+    unfold access_val at 2. rewrite Ey. reflexivity.
+Qed.
+
+(* a legacy context or a defaulting host access never fails on dict elements; the standard one fails exactly on a missing key *)
+Lemma access_elem_cases name m d :
+  (forall c, exists v, access_elem (AccHost c) name (VDict m d) = Ok v) /\
+  (exists v, access_elem AccLegacy name (VDict m d) = Ok v) /\
+  (dict_get_l (VStr name) d = None -> access_elem AccStd name (VDict m d) = Err EKey) /\
+  (forall v acc, dict_get_l (VStr name) d = Some v -> access_elem acc name (VDict m d) = Ok v).
+Proof.
+  cbn [access_elem]. destruct (dict_get_l (VStr name) d) as [v|]; repeat split; intros; try congruence; eauto.
+Qed.
